@@ -115,7 +115,7 @@ def c06_runs(tier):
 
 PLANS = {
     "C01": {"level": "exploration", "runs": lambda tier: [
-        {"engine": "core", "cfg": "asm-default", "tag": "checked"},
+        {"engine": "core", "cfg": "asm-default", "tag": "checked", "extra": ["--huge", "1"]},
         # the same sweep on a build without debug assertions / overflow checks (what users ship)
         {"engine": "core", "cfg": "asm-default-nodebug", "tag": "nodebug"}]},
     "C02": {"level": "model_checking", "runs": simple("core", "asm-all", extra=["--huge", "1"])},
@@ -125,13 +125,16 @@ PLANS = {
     "C07": {"level": "exploration", "runs": lambda tier: [
         {"engine": "kernels", "cfg": "default", "tag": "kernels"},
         # the crate's public API with guarded buffers, assembly flavour and Rust/C intrinsics flavour
-        {"engine": "core", "cfg": "asm-default", "tag": "api-asm"},
+        # built as users build it (no debug assertions): a bound that is only debug-asserted does not count
+        {"engine": "core", "cfg": "asm-default-nodebug", "tag": "api-asm"},
         {"engine": "core", "cfg": "intr-default", "tag": "api-intr"}]},
     "C06": {"level": "model_checking", "runs": c06_runs},
     "C08": {"level": "model_checking", "runs": lambda tier: [
         {"engine": "sched", "cfg": "default", "tag": "loom"},
         # update_rayon itself (RayonJoin, pools of 1/2/4 threads) as a transition from every state of the C02 exploration
-        {"engine": "core", "cfg": "asm-all", "prop": "C02", "tag": "rayon-bfs", "extra": ["--exact-rayon", "1"]}]},
+        {"engine": "core", "cfg": "asm-all", "prop": "C02", "tag": "rayon-bfs", "extra": ["--exact-rayon", "1"]},
+        # update_mmap_rayon on real files (every length class, new and non-new hashers, mmap failing or not)
+        {"engine": "core", "cfg": "asm-all", "prop": "C11", "tag": "mmap-rayon-files", "shims": {"mmapfail": "VERIF_MMAPFAIL_SO"}}]},
     "C18": {"level": "model_checking", "runs": simple("sched", "default")},
     "C09": {"level": "exploration", "runs": simple("core", "asm-default")},
     "C10": {"level": "model_checking", "runs": lambda tier: [
